@@ -513,11 +513,11 @@ def migration_family(tier):
         mcs = [tlc_model_check("migration_" + c, "Migration_MC.tla", "Migration_MC_%s.cfg" % c, workers=6,
                                timeout=900 if tier == "quick" else 3000, xmx="8g", extra="") for c in ok_cfgs]
         # seeded design errors and the as-implemented owner switch must be rejected by the invariants
-        for v in ("bad_no_key_lock", "bad_restore_replace", "bad_no_barrier", "bad_ttl_zero_persist", "bad_getdel_pull", "async_s4"):
+        for v in ("bad_no_key_lock", "bad_restore_replace", "bad_no_barrier", "bad_ttl_zero_persist", "bad_getdel_pull", "bad_skip_umsync_after_wait", "async_s4"):
             r = tlc_model_check("migration_" + v, "Migration_MC.tla", "Migration_MC_%s.cfg" % v, workers=4, timeout=600, xmx="4g", extra="")
             if r.get("ok") or not r.get("violated"):
                 raise ToolError("Migration design model unexpectedly accepts %s" % v)
-        mc = {"name": "Migration_MC[" + ",".join(ok_cfgs) + "] hold with the synchronous owner switch; 5 seeded design errors and the "
+        mc = {"name": "Migration_MC[" + ",".join(ok_cfgs) + "] hold with the synchronous owner switch; 6 seeded design errors and the "
                       "as-implemented asynchronous owner switch (known finding stale_pull_after_owner_switch) are rejected",
               "ok": all(m["ok"] for m in mcs), "wall_s": round(sum(m["wall_s"] for m in mcs), 1),
               "states": sum(m.get("states", 0) for m in mcs), "transitions": sum(m.get("transitions", 0) for m in mcs),
